@@ -152,7 +152,7 @@ def handle : List String → String
             else
               let hd := newAdminHandler ⟨os, eo, acl⟩ a (side == "R") pats
               let r : Req := ⟨m, h, p, up, o, rf, ou, ru, tls⟩
-              let res := serveHTTP probeHits hd idx (maxHops + 1) r 0
+              let res := serveReal probeHits hd idx (maxHops + 1) r 0
               s!"{showFinal res.final} {Hex.encode res.path} {res.cors} {res.state}"
       | _, _, _, _, _, _, _ => "bad-op"
     | _, _, _, _, _, _ => "bad-op"
